@@ -24,3 +24,9 @@ import Spydr.IO.Props.C16
 #print axioms Spydr.IO.toposort_finishes
 #print axioms Spydr.IO.toposort_total
 #print axioms Spydr.IO.edifify_finishes
+#print axioms Spydr.IO.read_policy_restored_switching
+#print axioms Spydr.IO.out_of_scope_rejected
+#print axioms Spydr.IO.wellScoped_accepted
+#print axioms Spydr.IO.resolve_iff_wellScoped
+#print axioms Spydr.IO.resolution_unique
+#print axioms Spydr.IO.edifify_keeps_existing
